@@ -133,6 +133,22 @@ def native_replay(rep):
     import os, sys
     sys.path.insert(0, os.path.dirname(os.path.dirname(os.path.abspath(__file__))))
     from native import c20_bounded
+    if "Genome.validate" in str(rep.get("obligation", "")) or "Genome.get_" in str(rep.get("obligation", "")):
+        # read-only entry points: stored values, expression levels, hash and log before and after, on the real Genome
+        from operon_ai.state.genome import Genome, Gene, ExpressionLevel
+        for required in (False, True):
+            for level in list(ExpressionLevel):
+                g = Genome(genes=[Gene(name="a", value=1, required=required), Gene(name="b", value="x")], silent=True)
+                g.set_expression("a", level)
+
+                def snap():
+                    return ({k: v.value for k, v in g._genes.items()}, {k: v.level for k, v in g._expression.items()}, g.get_hash(),
+                            len(g._mutations), g.express())
+                before = snap()
+                g.validate(); g.get_gene("a"); g.get_value("a"); g.get_value("zz", 3)
+                if snap() != before:
+                    return {"confirmed": True, "found_by": "read-only calls on small genomes",
+                            "observed": f"gene a required={required} at {level.name}: validate/get_gene/get_value changed the genome: {before} -> {snap()}"}
     n, bad = c20_bounded.search(3)
     if bad is None:
         return {"confirmed": False, "observed": f"no deviation from the reference value map among {n} operation sequences (depth 3)"}
@@ -144,3 +160,20 @@ def native_replay(rep):
 # above leave the gene table alone (their `values-and-log-untouched` clauses)
 contract(T + ".get_hash", "C20", reads=["self._genes"], raises=["Exception"],     # json.dumps(default=str) of arbitrary user values may raise
          ensures={})
+
+# ---------------------------------------------------------------- read-only entry points: validation and comparison never touch what is stored
+def expression_unchanged(self_now, self_old, q):
+    """gene q's expression entry (whether there is one, and its level) is as it was"""
+    return ((q in self_now._expression) == (q in self_old._expression)
+            and ((q not in self_old._expression) or self_now._expression[q].level == self_old._expression[q].level))
+
+
+contract(T + ".validate", "C20", ghost_params=Q, raises=[], modifies=[],
+         loops={"for (name, gene) in self._genes.items()": {"invariant": ["expression_unchanged(self, old(self), q)", "value_unchanged(self, old(self), q)"],
+                                                            "types": {"errors": "list:str"},
+                                                            "property_level": ["expression_unchanged(self, old(self), q)", "value_unchanged(self, old(self), q)"]}},
+         ensures={"verdict-is-no-errors": "result[0] == (len(result[1]) == 0)",
+                  "validation-changes-nothing": "value_unchanged(self, old(self), q) and expression_unchanged(self, old(self), q) "
+                                                "and len(self._mutations) == len(old(self)._mutations)"})
+contract(T + ".get_gene", "C20", params={"name": "str"}, raises=[], modifies=[], ensures={})
+contract(T + ".get_value", "C20", params={"name": "str", "default": "any"}, raises=[], modifies=[], ensures={})
